@@ -57,9 +57,9 @@ class Case:
 
     def header(self):
         c = self
-        return "%d %d %d %d %d %d %d %d %d %d %d %d %d %d %d %d %d %d" % (
+        return "%d %d %d %d %d %d %d %d %d %d %d %d %d %d %d %d %d %d %d" % (
             c.P, c.seed, c.adv, c.type, c.ntop, c.nint, c.nbot, c.nranges, c.ncalls, c.sorted, c.sep_senders, c.paymode, c.paysize,
-            c.sep_payload, c.threshold, c.api, c.superseed, c.barrier)
+            c.sep_payload, c.threshold, c.api, c.superseed, c.barrier, getattr(c, "reuse", 0))
 
     def text(self):
         lines = [self.header()]
@@ -74,14 +74,14 @@ class Case:
 
     def key(self):
         c = self
-        return "%s-P%d-calls%d%s-pay%d" % (TYPES[c.type] if c.api in (0,) else ["", "legacy-binary", "legacy-allgather", "ext", "nary-fn"][c.api],
-                                           c.P, c.ncalls, "b" if c.barrier else "", c.paymode)
+        return "%s-P%d-calls%d%s-pay%d%s" % (TYPES[c.type] if c.api in (0,) else ["", "legacy-binary", "legacy-allgather", "ext", "nary-fn"][c.api],
+                                             c.P, c.ncalls, "b" if c.barrier else "", c.paymode, ("-reuse%d" % c.reuse) if getattr(c, "reuse", 0) else "")
 
     def to_json(self):
         return dict(self.__dict__)
 
 
-def make_case(rng, P, typ, ncalls=1, paymode=0, paysize=0, api=0, barrier=0, sorted_=None, threshold=None, style=None):
+def make_case(rng, P, typ, ncalls=1, paymode=0, paysize=0, api=0, barrier=0, sorted_=None, threshold=None, style=None, reuse=0):
     pats, lens = [], []
     for call in range(ncalls):
         R = gen_pattern(rng, P, style or rng.choice(STYLES))
@@ -92,7 +92,7 @@ def make_case(rng, P, typ, ncalls=1, paymode=0, paysize=0, api=0, barrier=0, sor
                 nranges=rng.choice([1, 2, 3, 5, 25]), ncalls=ncalls,
                 sorted=(rng.randrange(2) if sorted_ is None else sorted_), sep_senders=rng.randrange(2), paymode=paymode, paysize=paysize,
                 sep_payload=rng.randrange(2), threshold=(rng.choice([0, 4, 8, 1024, 1024]) if threshold is None else threshold),
-                api=api, superseed=rng.randrange(1 << 30), barrier=barrier, patterns=pats, lengths=lens)
+                api=api, superseed=rng.randrange(1 << 30), barrier=barrier, patterns=pats, lengths=lens, reuse=reuse)
 
 
 def judge(case, run):
@@ -180,7 +180,7 @@ def run_cases(ctx, cases, trace=False, cflags_extra=("-fno-sanitize=nonnull-attr
     return rc, runs, err
 
 
-def known_key(case, kind):
+def known_key(case, kind, text=""):
     """violations that fall under a recorded finding get that finding's key"""
     tname = TYPES[case.type] if case.api == 0 else {1: "binary", 2: "allgather", 3: "ext", 4: "nary"}[case.api]
     if case.ncalls > 1 and not case.barrier and tname in WILDCARD_UNFENCED:
@@ -655,3 +655,24 @@ def cosimv_tie(ctx, ncases):
     ctx.notes["cosimulated_payloadv_rank_traces"] = len(lines)
     ctx.notes["cosimv_mismatches"] = nmis
     return len(lines)
+
+
+def reuse_cases(rng, paymodes, per_type):
+    """the caller keeps its OUTPUT arrays (senders, out_payload, out_offsets) over several calls, as in a time loop, without
+    resetting them (reuse 1), or passes arrays that already hold junk elements (reuse 2); separate output arrays are forced,
+    sorted 0/1 both; a barrier separates the calls where back-to-back calls are a recorded finding"""
+    cases = []
+    for typ in range(9):
+        for k in range(per_type):
+            pm = paymodes[k % len(paymodes)]
+            c = make_case(rng, rng.choice([2, 3, 4, 5, 7, 9]), typ, ncalls=rng.choice([1, 2, 3, 3]), paymode=pm,
+                          paysize=(rng.choice([1, 3, 4, 5, 8]) if pm else 0),
+                          barrier=(1 if TYPES[typ] in WILDCARD_UNFENCED else rng.randrange(2)), sorted_=k % 2, reuse=1 + (k // 2) % 2,
+                          style=rng.choice(["dense", "rand", "all", "ring"]))
+            c.sep_senders, c.sep_payload = 1, 1
+            if c.reuse == 1 and c.ncalls == 1:
+                c.ncalls = 2
+                c.patterns.append(gen_pattern(rng, c.P, "dense"))
+                c.lengths.append([[rng.choice([0, 1, 2, 3]) for _ in c.patterns[1][p]] for p in range(c.P)])
+            cases.append(c)
+    return cases
